@@ -48,6 +48,7 @@ type Engine struct {
 	fileByName map[string]*ast.File
 	intrinsics map[string]intrinsicFn
 	roGlobals  map[string]bool
+	Variants   []*BoundContract
 	ghostNames map[string]int
 	Errors     []string
 }
@@ -250,6 +251,12 @@ func (e *Engine) bind() error {
 			}
 			bc.Fn = fn
 			bc.Obj, _ = fn.Object().(*types.Func)
+			if bc.Variant != "" {
+				// an additional contract of the same function, verified on its own; callers use the default one
+				e.Variants = append(e.Variants, bc)
+				e.ByKey[pkg.PkgPath+"."+fc.Key()+"["+bc.Variant+"]"] = bc
+				continue
+			}
 			e.Contracts[fn] = bc
 			e.ByKey[pkg.PkgPath+"."+fc.Key()] = bc
 		}
@@ -447,6 +454,8 @@ func (e *Engine) bindClauses(bc *BoundContract) error {
 			bc.MayPanic = true
 		case "trusted":
 			bc.Trusted = true
+		case "variant":
+			bc.Variant = strings.TrimSpace(cl.Text)
 		case "unroll":
 			n, err := strconv.Atoi(strings.TrimSpace(cl.Text))
 			if err != nil || cl.Loop < 0 {
@@ -548,7 +557,7 @@ type FuncReport struct {
 // VerifyFunc generates the obligations of one function under contract.
 func (e *Engine) VerifyFunc(bc *BoundContract) (rep *FuncReport) {
 	fn := bc.Fn
-	rep = &FuncReport{Key: bc.Pkg.PkgPath + "." + bc.FC.Key(), Fn: fn.String(), Contract: bc}
+	rep = &FuncReport{Key: bc.KeyString(), Fn: fn.String(), Contract: bc}
 	u := e.NewUnit(fn, bc)
 	rep.Unit = u
 	defer func() {
@@ -605,22 +614,45 @@ func (e *Engine) VerifyFunc(bc *BoundContract) (rep *FuncReport) {
 		}
 		u.addObl(&Obligation{Kind: "calls", Name: "callee set within " + strings.Join(bc.CallsOnly, ", "), PC: c.True, Goal: c.True, Pos: e.Fset.Position(fn.Pos())})
 	}
-	vals, out := u.runFunction(fr, st.clone(), args)
-	if out != nil {
-		post := u.newSpecEnv(bc, out, st, args, vals)
-		post.fr = nil
-		for _, en := range bc.Ensures {
-			o := &Obligation{Kind: "ensures", Name: en.Text(), PC: out.pc, Goal: post.evalBool(en.Expr), Pos: e.Fset.Position(fn.Pos())}
-			if en.Clause.Name != "" {
-				if k, ok := bc.Known[en.Clause.Name]; ok {
-					o.Known = k
-				}
-			}
-			u.addObl(o)
+	// optional function-level case split: the body is verified once per case
+	var splitTerms []*Term
+	for _, se := range bc.Split {
+		splitTerms = append(splitTerms, env.evalBool(se))
+	}
+	anyExit := false
+	for _, cs := range u.enumCases(splitTerms) {
+		stc := st.clone()
+		restore := u.enterCase(stc, cs)
+		if len(cs.terms) > 0 {
+			// skip cases excluded by the precondition
+			fr = u.newFrame(fn, nil)
+			fr.bc = bc
+			fr.top = true
+			fr.entry = stc
+			fr.params = args
 		}
-		// canary: the exit must be reachable (otherwise every postcondition is vacuous)
-		u.addObl(&Obligation{Kind: "cover", Name: "exit reachable", PC: out.pc, Goal: c.False, Expect: "sat", Pos: e.Fset.Position(fn.Pos())})
-	} else if !bc.Recovers {
+		vals, out := u.runFunction(fr, stc.clone(), args)
+		if out != nil {
+			anyExit = true
+			post := u.newSpecEnv(bc, out, stc, args, vals)
+			post.fr = nil
+			for _, en := range bc.Ensures {
+				o := &Obligation{Kind: "ensures", Name: en.Text(), PC: out.pc, Goal: post.evalBool(en.Expr), Pos: e.Fset.Position(fn.Pos())}
+				if en.Clause.Name != "" {
+					if k, ok := bc.Known[en.Clause.Name]; ok {
+						o.Known = k
+					}
+				}
+				u.addObl(o)
+			}
+			if len(cs.terms) == 0 {
+				// canary: the exit must be reachable (otherwise every postcondition is vacuous)
+				u.addObl(&Obligation{Kind: "cover", Name: "exit reachable", PC: out.pc, Goal: c.False, Expect: "sat", Pos: e.Fset.Position(fn.Pos())})
+			}
+		}
+		restore()
+	}
+	if !anyExit && !bc.Recovers {
 		u.addObl(&Obligation{Kind: "cover", Name: "exit reachable", PC: c.False, Goal: c.False, Expect: "sat", Pos: e.Fset.Position(fn.Pos())})
 	}
 	return rep
@@ -676,8 +708,11 @@ func checkRecoverShape(fn *ssa.Function) string {
 func (e *Engine) SortedContracts() []*BoundContract {
 	var out []*BoundContract
 	for _, bc := range e.Contracts {
-		out = append(out, bc)
+		if !bc.Trusted {
+			out = append(out, bc)
+		}
 	}
+	out = append(out, e.Variants...)
 	sort.Slice(out, func(i, j int) bool {
 		a, b := out[i], out[j]
 		if a.Pkg.PkgPath != b.Pkg.PkgPath {
